@@ -64,7 +64,7 @@ def enclosing_ifs(mod, node, stop):
 def run(repo, res, tier):
     res.rule("REF-CLEAN", "after a clean-up no reference names a missing id and none to a present id is lost", 3)
     res.rule("REF-AFTER", "after removing a lanelet / sign / light / intersection no reference names it, references to what is left are kept", 8)
-    res.rule("REF-CUT", "cut-out filters intersection references by the kept ids and copies only referenced signs/lights", 9)
+    res.rule("REF-CUT", "cut-out filters intersection references by the kept ids and copies only referenced signs/lights", 6)
     res.rule("REF-HANG", "hanging signs/lights = referenced by removed minus referenced by remaining lanelets", 4)
     net = repo.cls(L, "LaneletNetwork")
     mod = net.mod
@@ -84,90 +84,11 @@ def run(repo, res, tier):
 
     # ---------------- REF-CUT
     cut = repo.method(L, "LaneletNetwork", "create_from_lanelet_network")
-    rd = ReachingDefs(cut)
     qn = "LaneletNetwork.create_from_lanelet_network"
-    # kept-id set: the local that receives la.lanelet_id after the exclusion `continue`
-    kept = None
-    for n in walk_no_nested(cut):
-        if isinstance(n, ast.Call) and isinstance(n.func, ast.Attribute) and n.func.attr == "add" and n.args and norm(n.args[0]).endswith(".lanelet_id") and isinstance(n.func.value, ast.Name):
-            kept = n.func.value.id
-    if kept is None:
-        raise AnalysisError("create_from_lanelet_network: kept-id set not found")
-    # the cut-out function together with the same-class helpers it hands the kept-id set to
-    region = [(cut, kept, rd)]
-    for c in walk_no_nested(cut):
-        if isinstance(c, ast.Call) and isinstance(c.func, ast.Attribute) and isinstance(c.func.value, ast.Name) and c.func.value.id in ("cls", "self", "LaneletNetwork"):
-            h = net.methods.get(c.func.attr)
-            if h is None:
-                continue
-            hp = [x.arg for x in h.args.args]
-            decos = [ast.unparse(d) for d in h.decorator_list]
-            hp = hp[1:] if hp and hp[0] in ("self", "cls") and "staticmethod" not in decos else hp
-            for pn, a_ in list(zip(hp, c.args)) + [(k.arg, k.value) for k in c.keywords if k.arg]:
-                if norm(a_) == kept:
-                    region.append((h, pn, ReachingDefs(h)))
-    ctor = [(n, k_, r_) for f_, k_, r_ in region for n in walk_no_nested(f_) if isinstance(n, ast.Call) and call_name(n) == "IntersectionIncomingElement"]
-    if len(ctor) != 1:
-        raise AnalysisError("create_from_lanelet_network: expected one IntersectionIncomingElement(...) call (found %d in %s)" % (len(ctor), [f_.name for f_, _k, _r in region]))
-    ctor0, kept_c, rd_c = ctor[0]
-    for kw in ctor0.keywords:
-        if kw.arg in ("incoming_lanelets", "successors_right", "successors_straight", "successors_left"):
-            vals = [kw.value]
-            if isinstance(kw.value, ast.Name):
-                vals = [d.node for d in rd_c.defs(kw.value.id, ctor0) if d.node is not None]
-            ok = bool(vals) and all(
-                (isinstance(v, ast.Call) and isinstance(v.func, ast.Attribute) and v.func.attr == "intersection" and len(v.args) == 1 and norm(v.args[0]) == kept_c and norm(v.func.value).endswith("." + kw.arg))
-                or (isinstance(v, ast.BinOp) and isinstance(v.op, ast.BitAnd) and {norm(v.left).split(".")[-1], norm(v.right).split(".")[-1]} == {kw.arg, kept_c})
-                for v in vals
-            )
-            res.check("REF-CUT", "cut-out: incoming.%s = old.%s ∩ kept ids" % (kw.arg, kw.arg), ok, mod, kw.value, "create_from_lanelet_network: %s=%s" % (kw.arg, [norm(v) for v in vals]), "the copied incoming element may reference lanelets that are not in the cut-out network", qualname=qn)
-    ictor = [n for n in walk_no_nested(cut) if isinstance(n, ast.Call) and call_name(n) == "Intersection"]
-    if len(ictor) != 1:
-        raise AnalysisError("create_from_lanelet_network: expected one Intersection(...) call")
-    cr = [kw.value for kw in ictor[0].keywords if kw.arg == "crossings"]
-    ok = False
-    if cr and isinstance(cr[0], ast.Name):
-        adds = [n for n in walk_no_nested(cut) if isinstance(n, ast.Call) and isinstance(n.func, ast.Attribute) and n.func.attr == "add" and norm(n.func.value) == cr[0].id]
-        ok = bool(adds) and all(any(pol and norm(t) == "%s in %s" % (norm(a.args[0]), kept) for t, pol in dominating_guards(mod, a, stop=cut)) for a in adds)
-        defs = [d.node for d in rd.defs(cr[0].id, ictor[0]) if d.node is not None]
-        ok = ok and all(norm(d) in ("set()",) or ".intersection(%s)" % kept in norm(d) for d in defs)
-        for d in defs:
-            if isinstance(d, ast.SetComp) and len(d.generators) == 1 and norm(d.elt) == norm(d.generators[0].target) and norm(d.generators[0].iter).endswith(".crossings") and any(norm(c_) == "%s in %s" % (norm(d.elt), kept) for c_ in d.generators[0].ifs):
-                ok = True
-    elif cr:
-        ok = ".intersection(%s)" % kept in norm(cr[0])
-    res.check("REF-CUT", "cut-out: crossings filtered by kept ids", ok, mod, ictor[0], "create_from_lanelet_network: crossings", "the copied intersection may reference crossing lanelets that are not in the cut-out network", qualname=qn)
-    # signs / lights: id sets filled only from kept lanelets (after the exclusion continue), everything in them is copied
-    for what, attr, adder, finder in (("traffic sign", "traffic_signs", "add_traffic_sign", "find_traffic_sign_by_id"), ("traffic light", "traffic_lights", "add_traffic_light", "find_traffic_light_by_id")):
-        idset = None
-        for n in walk_no_nested(cut):
-            if isinstance(n, ast.For) and norm(n.iter).endswith("." + attr) and not norm(n.iter).startswith("lanelet_network"):
-                for c in ast.walk(n):
-                    if isinstance(c, ast.Call) and isinstance(c.func, ast.Attribute) and c.func.attr == "add" and isinstance(c.func.value, ast.Name):
-                        idset = (c.func.value.id, n)
-        ok = idset is not None
-        if ok:
-            name, loop = idset
-            # the collecting loop is in the same block as, and after, kept.add(la.lanelet_id)
-            par = mod.parent.get(loop)
-            sibs = getattr(par, "body", [])
-            ok = any(isinstance(s, ast.Expr) and isinstance(s.value, ast.Call) and norm(s.value.func) == kept + ".add" for s in sibs[: sibs.index(loop)] if s in sibs)
-            copies = [n for n in walk_no_nested(cut) if isinstance(n, ast.For) and norm(n.iter) == name and any(isinstance(c, ast.Call) and isinstance(c.func, ast.Attribute) and c.func.attr == adder for c in ast.walk(n))]
-            ok = ok and len(copies) == 1 and any(isinstance(c, ast.Call) and isinstance(c.func, ast.Attribute) and c.func.attr == finder and norm(c.func.value) == "lanelet_network" for c in ast.walk(copies[0]))
-        res.check("REF-CUT", "cut-out: %ss of kept lanelets (and only those) are copied" % what, ok, mod, cut, "create_from_lanelet_network: %s ids" % what, "%ss referenced by kept lanelets are missing in the cut-out network, or unreferenced ones are copied" % what, qualname=qn)
-    # lanelets copied = kept ids; cleanup under default-true flag after the copy
-    copies = [n for n in walk_no_nested(cut) if isinstance(n, ast.For) and norm(n.iter) == kept and any(isinstance(c, ast.Call) and isinstance(c.func, ast.Attribute) and c.func.attr == "add_lanelet" for c in ast.walk(n))]
-    res.check("REF-CUT", "cut-out: exactly the kept lanelets are copied", len(copies) == 1, mod, cut, "create_from_lanelet_network: lanelet copy loop", "lanelets copied differ from the kept-id set used to filter references", qualname=qn)
-    flag_default = None
-    a = cut.args
-    for arg, d in zip(a.args[len(a.args) - len(a.defaults):], a.defaults):
-        if arg.arg == "cleanup_ids":
-            flag_default = d.value if isinstance(d, ast.Constant) else None
-    cl = [n for n in walk_no_nested(cut) if isinstance(n, ast.Call) and norm(n.func).endswith(".cleanup_lanelet_references")]
-    ok = flag_default is True and len(cl) >= 1 and bool(copies) and all(c.lineno > copies[0].lineno for c in cl)
-    if ok:
-        ok = enclosing_ifs(mod, cl[0], cut) in ([("cleanup_ids", True)], [])
-    res.check("REF-CUT", "cut-out: lanelet references cleaned (default) after copying", ok, mod, cut, "create_from_lanelet_network: cleanup_lanelet_references", "copied lanelets keep predecessor/successor/adjacency references to lanelets that were cut away", qualname=qn)
+    # decided by evaluation on a small network (c10ev.cut_out_rules): what the new network holds and refers to
+    from . import c10ev as _c10ev_cut
+
+    _c10ev_cut.cut_out_rules(repo, res, "REF-CUT")
     # create_from_lanelet_list
     lst = repo.method(L, "LaneletNetwork", "create_from_lanelet_list")
     calls = {norm(n.func).split(".")[-1]: n for n in walk_no_nested(lst) if isinstance(n, ast.Call)}
@@ -179,43 +100,11 @@ def run(repo, res, tier):
     sc = repo.cls(S, "Scenario")
     hang = repo.method(S, "Scenario", "remove_hanging_lanelet_members")
     smod = sc.mod
-    prov = Provenance(hang)
-    prm = hang.args.args[1].arg
     qn = "Scenario.remove_hanging_lanelet_members"
-    # what is handed to the removal functions is selected by membership in (referenced by removed) - (referenced by
-    # remaining); the selection may be written as append loops or comprehensions, the difference hoisted or not
-    from ..flowtools import collected
+    # decided by evaluation on a small network (c10ev.hanging_rules): what is handed to the removal functions
+    from . import c10ev as _c10ev
 
-    hrd = prov.rd
-    subs = [x for x in ast.walk(hang) if isinstance(x, ast.BinOp) and isinstance(x.op, ast.Sub)]
-    good_subs = []
-    for sb in subs:
-        left_roots = prov.roots(sb.left, hrd.stmt_of(sb))
-        right_defs = hrd.defs(sb.right.id, hrd.stmt_of(sb)) if isinstance(sb.right, ast.Name) else []
-        rem = None
-        for nm in [x.id for d in right_defs if d.node is not None for x in ast.walk(d.node) if isinstance(x, ast.Name)]:
-            for d2 in hrd.defs(nm, hrd.stmt_of(sb)):
-                if d2.node is not None and " not in " in norm(d2.node):
-                    rem = norm(d2.node)
-        if prm in left_roots and rem is not None:
-            good_subs.append(canon(sb, hrd, hrd.stmt_of(sb), [prm]))
-    n_sel = 0
-    for fnname in ("remove_traffic_sign", "remove_traffic_light"):
-        for c in walk_no_nested(hang):
-            if isinstance(c, ast.Call) and norm(c.func) == "self." + fnname and c.args and isinstance(c.args[0], ast.Name):
-                cols, _rn = collected(smod, hang, hrd, [prm], None, result=c.args[0].id)
-                cols = [k for k in cols if k.how != "extend-iterable"]
-                for k in cols:
-                    n_sel += 1
-                    gt = [t for t, p, _n in k.guards if p]
-                    ok = any(any(gs in t or ("set(%s)" % gs) in t for gs in good_subs) and " in " in t for t in gt)
-                    res.check("REF-HANG", "hanging filter for %s(%s)" % (fnname, c.args[0].id), ok, smod, k.node, "remove_hanging_lanelet_members: %s selected under %s" % (norm(k.elem)[:50], gt), "signs/lights are selected for removal although a remaining lanelet still references them (or the set difference is missing)", qualname=qn)
-    if n_sel < 2:
-        raise AnalysisError("remove_hanging_lanelet_members: selection of hanging signs / lights not found")
-    # the selected lists are handed to the id-releasing removal functions
-    for fnname in ("remove_traffic_sign", "remove_traffic_light"):
-        ok = any(isinstance(n, ast.Call) and norm(n.func) == "self." + fnname for n in walk_no_nested(hang))
-        res.check("REF-HANG", "hanging members removed through Scenario.%s" % fnname, ok, smod, hang, "remove_hanging_lanelet_members -> %s" % fnname, "hanging elements are not removed through the function that also cleans references", qualname=qn)
+    _c10ev.hanging_rules(repo, res, "REF-HANG")
     # Scenario.remove_lanelet: hanging members are determined before the lanelets are dropped
     rl = repo.method(S, "Scenario", "remove_lanelet")
     hcall = [n for n in walk_no_nested(rl) if isinstance(n, ast.Call) and norm(n.func) == "self.remove_hanging_lanelet_members"]
